@@ -215,6 +215,54 @@ func c10(ctx *Ctx) {
 			ctx.Run.Violation("factored-not-compiling:"+sc.Axes["pos"], fmt.Sprintf("%s: the factored program does not compile: %s", sc.ID, firstLine(msg)),
 				map[string]any{"kind": "gen", "files": sc.Case().Files, "args": sc.Case().Args, "cfg": sc.Case().Cfg})
 		}})
+	// chains of file references across directories: every hop resolves relative to the document it occurs in, whether or not the
+	// referenced root says "type": "object", and wherever the main document lies relative to the working directory
+	var chains []SCase
+	for _, typed := range []bool{true, false} {
+		for _, mainPath := range []string{"s.json", "dir/s.json", "deep/er/s.json"} {
+			up := strings.Repeat("../", strings.Count(mainPath, "/"))
+			obj := J{"properties": J{"in": J{"$ref": "inner.json"}, "d": J{"$ref": "sub/deep.json"}, "x": J{"$ref": "../lib2/x.json"}, "req": J{"type": "integer"}}, "required": A{"req"}}
+			inner := J{"properties": J{"v": J{"type": "string", "maxLength": 3}}}
+			deep := J{"properties": J{"w": J{"type": "integer", "minimum": 1}, "back": J{"$ref": "../inner.json"}}}
+			x := J{"properties": J{"y": J{"type": "string", "minLength": 2}}, "required": A{"y"}}
+			if typed {
+				for _, o := range []J{obj, inner, deep, x} {
+					o["type"] = "object"
+				}
+			}
+			root := J{"type": "object", "properties": J{"o": J{"$ref": up + "lib/obj.json"}, "s": J{"type": "string", "minLength": 2}}, "required": A{"o"}}
+			extra := []genlab.File{{Path: "lib/obj.json", Content: space.Text(obj)}, {Path: "lib/inner.json", Content: space.Text(inner)}, {Path: "lib/sub/deep.json", Content: space.Text(deep)}, {Path: "lib2/x.json", Content: space.Text(x)}}
+			cfg := baseCfg()
+			cfg.ResolveExt = []string{".json"}
+			chains = append(chains, SCase{ID: fmt.Sprintf("C10/A/chain/typed=%v/main=%s", typed, mainPath), Schema: root, Cfg: cfg, Extra: extra, Main: mainPath,
+				Axes: map[string]string{"pos": "chain", "leaf": fmt.Sprintf("typed=%v/main=%s", typed, mainPath)}})
+		}
+	}
+	// an extension-less file reference whose text equals the name of a type declared from a definition of the referring document
+	{
+		root := J{"type": "object", "properties": J{"p1": J{"$ref": "#/$defs/Thing"}, "p2": J{"$ref": "Thing"}, "p3": J{"$ref": "#/$defs/Thing"}}, "required": A{"p1"},
+			"$defs": J{"Thing": J{"type": "object", "properties": J{"a": J{"type": "string"}}, "required": A{"a"}}}}
+		cfg := baseCfg()
+		cfg.ResolveExt = []string{".json"}
+		chains = append(chains, SCase{ID: "C10/A/chain/bare-file-name-equals-definition-name", Schema: root, Cfg: cfg, Axes: map[string]string{"pos": "chain", "leaf": "bare-name"},
+			Extra: []genlab.File{{Path: "Thing.json", Content: space.Text(J{"type": "object", "properties": J{"b": J{"type": "integer"}}, "required": A{"b"}})}}})
+	}
+	runBehaviour(ctx, behaviour{Name: "chains", Cases: chains, Devs: c10Devs, Values: true,
+		DocFilter: func(sc *SCase, d *refmodel.Doc, tv refmodel.Verdict) bool { return !strings.Contains(d.Class, "type:") },
+		OnGenErr: func(sc *SCase, msg string) {
+			ctx.Run.Violation("chain-not-generated:"+sc.Axes["leaf"], fmt.Sprintf("%s: a chain of relative file references is rejected: %s", sc.ID, firstLine(msg)),
+				map[string]any{"kind": "gen", "files": sc.Case().Files, "args": sc.Case().Args, "cfg": sc.Case().Cfg})
+		},
+		OnBuildErr: func(sc *SCase, msg string) {
+			ctx.Run.Violation("chain-not-compiling:"+sc.Axes["leaf"], fmt.Sprintf("%s: does not compile: %s", sc.ID, firstLine(msg)),
+				map[string]any{"kind": "gen", "files": sc.Case().Files, "args": sc.Case().Args, "cfg": sc.Case().Cfg})
+		}})
+	// one Go type per definition also when three definitions want the same name: the third must be bound to the declaration that
+	// represents *its* schema, whatever the equality pattern (ABB, ABA, AAB, ABC, AAA)
+	runBehaviour(ctx, behaviour{Name: "colliding-definitions", Values: true, Devs: c10Devs, Cases: collisionTriples("C10", func(i int) J {
+		return []J{{"type": "object", "properties": J{"a": J{"type": "string"}}, "required": A{"a"}}, {"type": "object", "properties": J{"b": J{"type": "integer"}}, "required": A{"b"}},
+			{"type": "object", "properties": J{"c": J{"type": "boolean"}}}}[i]
+	}, false)})
 	casesB := c10CasesB(ctx.Level)
 	runBehaviour(ctx, behaviour{Name: "recursion", Cases: casesB, Devs: c10Devs, Values: true,
 		OnGenErr: func(sc *SCase, msg string) {
